@@ -796,6 +796,14 @@ def block_check(sc, tier, seed, prop, select, rule, quick_n, assumptions=()):
     if not cases:
         raise Inconclusive('MC_block produced no program for ' + prop)
     total = len(cases)
+    # the scenario families of MC_blockprog (longer schedules, written out in the model): all of them, always
+    fam = 'ProgsC11' if prop == 'C11' else 'ProgsC12'
+    out2, st2 = run_tlc(sc, 'MC_blockprog', mc_cfg('MC_blockprog', devs).replace('BProgs <- ProgsC11', 'BProgs <- ' + fam), tag='blockprog', timeout=900)
+    require_tlc_clean(st2, 'MC_blockprog')
+    v.add_tlc('MC_blockprog (%s)' % fam, st2)
+    scen = join_cases(tlc_json_lines(out2))
+    if not scen:
+        raise Inconclusive('MC_blockprog produced no scenario for ' + prop)
     rnd = _r.Random(seed)
     rnd.shuffle(cases)
     if tier == 'quick':
@@ -806,6 +814,7 @@ def block_check(sc, tier, seed, prop, select, rule, quick_n, assumptions=()):
             (must if k not in seen else rest).append(c)
             seen.add(k)
         cases = must + rest[:max(0, quick_n - len(must))]
+    cases = scen + cases
     for i, c in enumerate(cases):
         c['id'] = i
     cf, rf = sc.path('blk-cases.jsonl'), sc.path('blk-out.jsonl')
@@ -822,6 +831,7 @@ def block_check(sc, tier, seed, prop, select, rule, quick_n, assumptions=()):
     v.absorb_replay(cases, results, engine='block')
     v.add_samples(cases, 2)
     v.cov['engines']['block']['programs_enumerated_by_tlc'] = total
+    v.cov['engines']['block']['scenario_programs'] = len(scen)
     v.assumptions = list(assumptions) + [
         'a step is complete when the issuing connection has its reply or is confirmed blocked (announced by the verif hook at blk.captured, or held at an armed gate); replies to blocked connections are collected for 60-120 ms after every step',
         'a client held at after_wake is woken but not served until released; while it is held the model serves nobody else from that push (single-element pushes wake one waiter)',
